@@ -162,6 +162,10 @@ func RandComp(r *rand.Rand) *Comp {
 	if r.Intn(4) != 0 {
 		m.HasTrail = true
 		m.Trail = pick(r, textCh, 0, 40)
+		if r.Intn(60) == 0 {
+			// longer than the client's 4096-byte read buffer
+			m.Trail = pick(r, textCh, 4000, 9000)
+		}
 		if msgVerb && nm == 1 && r.Intn(2) == 0 {
 			verb := []string{"ACTION", "VERSION", "PING", "TIME", "DCC", "FINGER"}[r.Intn(6)]
 			if r.Intn(3) == 0 {
